@@ -39,6 +39,7 @@ type scenario struct {
 	Workers [][]bindOp `json:"workers"`
 	Sweep   bool       `json:"sweep"` // exhaust the ephemeral range first
 	SweepIP int        `json:"sweepIP,omitempty"` // 0: on the wildcard address; k>0: on the host's k-th address (mod), then other addresses must still have free ports
+	Traffic   bool     `json:"traffic,omitempty"` // assign: the router runs and routes datagrams to still free addresses while NICs join
 	EarlyBind bool     `json:"earlyBind,omitempty"` // a wildcard port-0 bind (closed again) before the host is attached to the router
 	NilIPPort bool     `json:"nilIPPort,omitempty"` // binds to the wildcard address are written as &net.UDPAddr{Port: p} (nil IP)
 	NearFull int       `json:"nearFull"` // leave only this many ephemeral ports free before the workers start (0 = off)
@@ -48,6 +49,7 @@ func gen(r *harn.Rng, tier string) interface{} {
 	sc := &scenario{}
 	if r.Bool(0.4) {
 		sc.Kind = "assign"
+		sc.Traffic = r.Bool(0.4)
 		sc.CIDR = []string{"10.0.0.0/24", "10.0.0.0/24", "192.168.7.0/24", "10.1.2.0/28", "10.9.0.0/16"}[r.Intn(5)]
 		n := r.Range(1, 14)
 		if r.Bool(0.05) {
@@ -116,13 +118,15 @@ func gen(r *harn.Rng, tier string) interface{} {
 			// bind, close, re-bind the same address, close the stale handle again, bind once more, probe
 			ip := append([]string{"", "127.0.0.1"}, sc.HostIPs...)[r.Intn(2+len(sc.HostIPs))]
 			port := 4100 + w
-			ops = append(ops, bindOp{K: "listenudp", IP: ip, Port: port}, bindOp{K: "close", Ref: 0},
-				bindOp{K: "listenudp", IP: ip, Port: port}, bindOp{K: "reclose", Ref: 0},
-				bindOp{K: "listenudp", IP: ip, Port: port})
 			pip := ip
 			if pip == "" {
 				pip = sc.HostIPs[0]
 			}
+			// (a datagram reaches the first socket before it is closed: whatever the host remembers
+			// about that delivery must not outlive the socket)
+			ops = append(ops, bindOp{K: "listenudp", IP: ip, Port: port}, bindOp{K: "probe", IP: pip, Port: port}, bindOp{K: "close", Ref: 0},
+				bindOp{K: "listenudp", IP: ip, Port: port}, bindOp{K: "reclose", Ref: 0},
+				bindOp{K: "listenudp", IP: ip, Port: port})
 			ops = append(ops, bindOp{K: "probe", IP: pip, Port: port})
 		}
 		for i, n := 0, r.Range(2, 10); i < n; i++ {
@@ -137,6 +141,8 @@ func gen(r *harn.Rng, tier string) interface{} {
 				op.K = "dial"
 				op.IP = []string{"10.0.0.200", "127.0.0.1"}[r.Intn(2)]
 				op.Port = 9000
+			case x < 64:
+				op.K, op.Ref = "dialer", r.Intn(3)
 			case x < 70:
 				op.K = "dialudp"
 			case x < 82:
@@ -193,10 +199,48 @@ func runAssign(env *simrt.Env, sc *scenario) {
 	_, ipnet, _ := net.ParseCIDR(sc.CIDR)
 	held := map[string]int{} // address -> index of the NIC holding it
 	auto := 0
+	// the router is running and routes datagrams to addresses nobody holds yet, just before NICs
+	// with exactly those addresses join: whatever it remembers about the failed look-ups must not
+	// influence the assignment
+	var prober net.PacketConn
+	if sc.Traffic && strings.HasSuffix(sc.CIDR, ".0/24") && len(sc.NICs) < 60 {
+		uses249 := false
+		for _, ns := range sc.NICs {
+			for _, st := range ns.Static {
+				if st == "249" {
+					uses249 = true
+				}
+			}
+		}
+		if !uses249 {
+			pn, err := vnet.NewNet(&vnet.NetConfig{StaticIPs: []string{expand(sc.CIDR, "249")}})
+			if err == nil && wan.AddNet(pn) == nil {
+				held[expand(sc.CIDR, "249")] = -1
+				if c, err := pn.ListenUDP("udp", &net.UDPAddr{IP: net.ParseIP(expand(sc.CIDR, "249")), Port: 4000}); err == nil {
+					prober = c
+					_ = wan.Start()
+					defer func() { _ = c.Close(); _ = wan.Stop() }()
+				}
+			}
+		}
+	}
 	for i, ns := range sc.NICs {
 		var static []string
 		for _, s := range ns.Static {
 			static = append(static, expand(sc.CIDR, s))
+		}
+		if prober != nil {
+			targets := append([]string(nil), static...)
+			for k := 1; k <= 3; k++ {
+				targets = append(targets, expand(sc.CIDR, fmt.Sprint((auto+k)%254+1)))
+			}
+			for _, tgt := range targets {
+				if ip := net.ParseIP(tgt); ip != nil && ipnet.Contains(ip) {
+					_, _ = prober.WriteTo([]byte("anyone there?"), &net.UDPAddr{IP: ip, Port: 4000})
+				}
+			}
+			env.QuiesceWithin(time.Millisecond)
+			env.Probe("routed-to-free-addresses")
 		}
 		var addrs []net.IP
 		var aerr error
@@ -209,6 +253,9 @@ func runAssign(env *simrt.Env, sc *scenario) {
 			aerr = wan.AddRouter(child)
 			if aerr == nil {
 				addrs = vnet.VerifRouterWANAddrs(child)
+				if prober != nil {
+					_ = child.Start() // the parent is running already; it stops its children when it is stopped
+				}
 			}
 		} else {
 			n, err := vnet.NewNet(&vnet.NetConfig{StaticIPs: static})
@@ -249,7 +296,7 @@ func runAssign(env *simrt.Env, sc *scenario) {
 			}
 			if j, dup := held[ip.String()]; dup && j != i {
 				how := "statically"
-				if len(sc.NICs[j].Static) == 0 {
+				if j >= 0 && len(sc.NICs[j].Static) == 0 {
 					how = "automatically"
 				}
 				mine := "automatically assigned"
@@ -500,6 +547,38 @@ func runBind(env *simrt.Env, sc *scenario) {
 					}
 					_ = closedHandles[o.Ref%len(closedHandles)].Close() // an error is fine; an effect is not
 					env.Fault("repeated-close")
+				case "dialer":
+					if concurrent {
+						continue
+					}
+					// a transport.Dialer with a local address of port 0: every Dial picks a free port of its own
+					hip := sc.HostIPs[o.Ref%len(sc.HostIPs)]
+					d := host.CreateDialer(&net.Dialer{LocalAddr: &net.UDPAddr{IP: ipOf(hip, o.V4), Port: 0}})
+					var got []net.Conn
+					for k := 0; k < 2; k++ {
+						c, err := d.Dial("udp", "10.0.0.200:9000")
+						if err != nil {
+							env.Fail("C13/bind-refused", "worker %d op %d: Dial #%d through a dialer with local address %s:0 failed (%v) although the ephemeral range has free ports", w, i, k+1, hip, err)
+							return
+						}
+						la, _ := c.LocalAddr().(*net.UDPAddr)
+						// (which of the host's addresses the dialer uses is its own business)
+						if la == nil || la.Port < 5000 || la.Port > 5999 || conflicts(la.IP.String(), la.Port) {
+							env.Fail("C13/ephemeral-in-use", "worker %d op %d: Dial #%d through a dialer with local address %s:0 was bound to %v (open sockets: %s)", w, i, k+1, hip, c.LocalAddr(), openDesc(open))
+							return
+						}
+						for _, p := range got {
+							if p.LocalAddr().String() == c.LocalAddr().String() {
+								env.Fail("C13/ephemeral-in-use", "worker %d op %d: two open sockets of one dialer share %v", w, i, c.LocalAddr())
+								return
+							}
+						}
+						got = append(got, c)
+					}
+					for _, c := range got {
+						_ = c.Close()
+					}
+					env.Probe("dialer")
 				case "probe":
 					if concurrent {
 						continue
